@@ -40,13 +40,15 @@ def run(ctx):
                    'reset to the empty string before every call: it cannot contribute more than the limit, nor stale text', floor=3)
     chk.rule('L2', 'the message buffer has capacity log_message_max_length + 1, is only extended through the bounded '
                    'append, and the append keeps strlen <= capacity - 1', floor=4)
+    chk.rule('L4', 'literal text of the format is not routed through the buffer sized by the data-source limit (it would be '
+                   'cut to that limit)', floor=1)
     chk.rule('L3', 'the ident and path templates are expanded into fixed buffers with their own size as the limit', floor=2)
     chk.explanation = (
         'Decides only the two length clauses. Sizes are composed symbolically across the three call levels (action -> '
         'generateFromFormat -> registry -> data source): linear forms over the configuration fields are substituted '
         'through the parameters, so the equalities hold for every value of the two limits in [255, 1048575].')
     chk.assumptions = ['every data source keeps to the (buffer, size) contract and terminates its result (C02)']
-    chk.not_decided = ['exactness of the expansion: left-to-right replacement, verbatim copy of literals, the '
+    chk.not_decided = ['exactness of the expansion beyond L4: left-to-right replacement, byte-for-byte copy of literals, the '
                        '[ERROR: ...] texts, "emitted exactly whenever it fits" — statements about the output string for '
                        'every format string, for which no structural rule is a necessary and refactoring-stable condition']
     prog = ctx.program(facts.AS_CONFIGURED, 'lib')
@@ -100,6 +102,36 @@ def run(ctx):
                'the data-source buffer is not reset to "" right before %s: a data source that writes nothing (or does not '
                'terminate) contributes text of an earlier tag' % render(c)[:50],
                how='buf[0] = 0 is the last write to the buffer on every path to the call')
+    # ---- L4: text of the format itself never passes through a buffer bounded by the data-source limit ---
+    from engine.statics import _pointee_const as _pc
+    for i, c in enumerate(dsc[:1]):
+        buf = decl_of(arg(c, 1))
+        if buf is None:
+            break
+        pt = PtrTaint(G, lambda n: False, {buf['id']})
+        foreign = []
+        for n in pt.stores():
+            # the reset  buf[0] = 0  is the only direct store the rule accepts
+            l = strip(n.ch[0])
+            if n.k == 'BinaryOperator' and n['op'] == '=' and l.k == 'ArraySubscriptExpr' and \
+                    strip(l.ch[1]).get('v') == 0 and strip(n.ch[1]).get('v') == 0:
+                continue
+            foreign.append(n)
+        for call, ai, a in pt.pointer_args():
+            if call.get('callee') in (DS_CALL, 'free'):
+                continue
+            ptypes = call.get('calleeParamTypes') or []
+            if ai < len(ptypes) and _pc(ptypes[ai]):
+                continue
+            if ai >= len(ptypes) and call.get('calleeVariadic'):
+                continue       # read as a %s argument
+            foreign.append(call)
+        chk.ob('L4', 'limit-sized-buffer-holds-only-datasource-output', not foreign,
+               foreign[0].where() if foreign else c.where(), G.name,
+               'the buffer of datasource_message_max_length + 1 bytes is also filled by %s: text of the format string copied '
+               'through it is cut to the data-source limit although it is no data source output (a literal longer than '
+               'the limit loses its tail even when the whole message fits)' % (render(foreign[0])[:70] if foreign else ''),
+               how='written only by %s and by the reset to ""' % DS_CALL)
     # what is appended after the call is the buffer itself
     # ---- L2 ------------------------------------------------------------------------------------
     msg = decl_of(arg(gc, 0))
